@@ -359,7 +359,16 @@ def infer_patterns(qf):
         qf._pats = []
         return qf._pats
     seen = set()
-    for e in _walk(parts):
+    # also the beta-reduced reading (a select on a lambda term - an array havocked inside a view - is a select on the arrays
+    # under the lambda once the VC is simplified)
+    extra = []
+    for p_ in parts:
+        try:
+            if 'lambda' in p_.sexpr():
+                extra.append(z3.simplify(p_))
+        except Exception:
+            pass
+    for e in _walk(parts + extra):
         if not z3.is_app(e):
             continue
         k = e.decl().kind()
